@@ -51,6 +51,17 @@ func clientJobs(harness string, thorough bool, chunkSet []int, withExc bool, ext
 						js = append(js, sym.Job{Harness: harness, Params: pm, AbstractCRC: mode != 0 && q > 8})
 					}
 				}
+				// smallest reply of every kind: additionally every pair of cut positions (three reads). For replies of
+				// at most 16 bytes the cut set {0..12, L-3..L-1} is every position, so this is every fragmentation into
+				// three reads; with the loop carrying only (total, received[0:total]) it is the loop's inductive step
+				// "from any reachable state, any next chunk" for these replies.
+				if !thorough && q == clientQs(kind, thorough)[0] && len(chunkSet) > 0 && chunkSet[len(chunkSet)-1] < 3 && extra["fault"] == 0 {
+					pm := map[string]int{"kind": kind, "mode": mode, "q": q, "chunks": 3, "exc": 0}
+					for k, v := range extra {
+						pm[k] = v
+					}
+					js = append(js, sym.Job{Harness: harness, Params: pm})
+				}
 			}
 		}
 	}
@@ -82,7 +93,7 @@ func init() {
 			return js
 		},
 		Bounds: map[string]string{
-			"quick":    "length formulas: 18 request types, every legal quantity symbolic; exchanges: 10 functions x {TCP client, RTU network client, serial client} x reply sizes {min, mid, max} x up to 2 reads with the cut position case-split over {0..12, E-1, E, E+1, L-3, L-2, L-1} and an optional empty timed-out read before each chunk; reply payload bytes symbolic; exception replies with symbolic code",
+			"quick":    "length formulas: 18 request types, every legal quantity symbolic; exchanges: 10 functions x {TCP client, RTU network client, serial client} x reply sizes {min, mid, max} x up to 2 reads with the cut position case-split over {0..12, E-1, E, E+1, L-3, L-2, L-1} and an optional empty timed-out read before each chunk; for the smallest reply of every function (at most 16 bytes, where that set is every position) also every pair of cut positions (3 reads); reply payload bytes symbolic; exception replies with symbolic code",
 			"thorough": "up to 3 reads (two cut positions); more reply sizes",
 		},
 		Outside:     []string{"more reads than the bound; cut positions outside the case-split set (positions between 13 and E-2 behave like 12: no comparison in the loop distinguishes them)", "transports violating the io.Reader contract", "real timer behaviour: the timer fires only when the harness lets time pass (after the reply has been delivered completely)"},
